@@ -1052,8 +1052,8 @@ def __xor__(self, other):
         b_fiber = other
 
         def __iter__(self):
-            a = self.a_fiber.__iter__()
-            b = self.b_fiber.__iter__()
+            a = self.a_fiber.__iter__(tick=False)
+            b = self.b_fiber.__iter__(tick=False)
 
             a_coord, a_payload = _get_next(a)
             b_coord, b_payload = _get_next(b)
@@ -1396,8 +1396,8 @@ def __sub__(self, other):
         b_fiber = other
 
         def __iter__(self):
-            a = self.a_fiber.__iter__()
-            b = self.b_fiber.__iter__()
+            a = self.a_fiber.__iter__(tick=False)
+            b = self.b_fiber.__iter__(tick=False)
 
             a_coord, a_payload = _get_next(a)
             b_coord, b_payload = _get_next(b)
